@@ -1,12 +1,20 @@
 PROP = {
-    "groups": ["guards"],
+    "groups": ["guards", "hostile"],
     "timeout": 600,
     "rule": "guards: the real pipelineRecvBinaryData / recvData / recvPrefixHash / recvConfig / pipelineRecvCurrentAck / "
             "pipelineRecvFinalAck / createProgressBar+newTextProgressBar / recvInteger / parseTrzszVersion / unmarshalTargetFile "
             "against Model/Guards.v on boundary numerals (0, +-1, 2^31 and 2^63 neighbourhoods, values around the data bound for "
             "14 buffer sizes incl. overflowing ones, around the hash block size), signs, leading zeros, non-digits, JSON literals of "
             "the wrong type, sequences of hash records with good and bad digests; non-trivial = everything except well-formed "
-            "short numerals; distinct = distinct input line. ",
+            "short numerals; distinct = distinct input line. "
+            "hostile: transcripts of both roles recorded from real transfers (protocols 1-4 x base64/binary x progress on/off, resume, archive, "
+            "directory, two files, empty file, large file with COMP, escape-all) are mutated message by message - every numeric field and JSON "
+            "member to -1, 0, 1, 2^31-1, 2^31, 2^31+1, 5e7, 2^33, 2^62, 2^63-1, 2^63, -2^63, -2^63-1, 40 digits, non-numeric, empty, float, "
+            "exponent, sign, hex, blank, orig+-1, orig*2, wrong JSON type, absent; truncated / corrupt JSON, base64, zlib, zstd, escape "
+            "sequences, binary payloads; lines missing, duplicated, cut, retyped, without colon, 1 MB long; FAIL / EXIT injected; trigger "
+            "version / port / id - and each mutant is replayed against the real trz / tsz (ulimit -v 4 GiB) or the real client in a child "
+            "process (RLIMIT_AS 4 GiB); oracle: no crash text, no recovered panic, ends by itself or at the user's interrupt, peak RSS < 600 MB, "
+            "client forwards a probe both ways afterwards; every replay is non-trivial; distinct = distinct scenario+message+field+value",
     "trusted": ["modelled, not verified: encoding/json, zlib, zstd, base64 and the Go runtime on malformed input (exercised by the hostile group, not proved)",
                 "goroutines without recover are a structural fact (Gen/Skel_guards.recover_sites), not a theorem",
                 "totality of the progress display for unguarded steps and sizes is C20's theorem"],
